@@ -1581,6 +1581,11 @@ class Interp:
         return TOP(ann)
 
     def call_func(self, fi, bound, cenv, args, kwargs, node, optional=()):
+        h = getattr(self.dom, "summary", None)
+        if h is not None:
+            r = h(self, fi, bound, args, kwargs, node)
+            if r is not None:
+                return r
         if cenv is not None:
             # nested function / lambda: evaluate in a child of its defining environment
             return self._call_closure(fi, bound, cenv, args, kwargs, node)
